@@ -1,1 +1,29 @@
-PROP = {'suites': ['c03'], 'clauses': {1: 'a token request succeeded on a code that had already been redeemed', 2: 'a code was redeemed by a client other than the one it was issued to', 3: 'a code was redeemed with a redirect_uri other than the one of its authorization request', 4: 'a code was redeemed after its 60 s lifetime had elapsed', 5: 'PKCE is enabled and the authorization request recorded a code_challenge, yet the code was redeemed without a code_verifier that matches it under the effective method (the method named in the request, else the server default)', 6: 'a token obtained from a code is still accepted after the code was replayed'}, 'title': 'Authorization codes are single-use, client-bound, redirect-bound and short-lived', 'text': 'Theorems over the model: code_at_most_once (over ALL histories of any length, configuration and interleaving, no token request succeeds on a consumed code: ghost-state invariant on top of the index-uniqueness/freshness discipline proved for every handler), code_redemption_bound (for every store and request, tokens only if the code indexes a stored session of the authenticated client, unexpired, with equal redirect_uri and a passed PKCE check, and the session is deleted), code_client_authenticated, code_pkce, code_pkce_effective_method (for every store and request: a code whose session recorded a challenge yields tokens only with a verifier matching it under the EFFECTIVE method - the one the authorization request named, else, for a code_challenge sent WITHOUT code_challenge_method, the configured default; with S256 as default the challenge string itself is never an acceptable verifier), code_index_unique, replay_kills_issue (in every reachable state a later authenticated presentation is refused and no stored grant carries the code afterwards) and code_carried_by_one_grant (invariant over ALL histories: a code is carried by at most one grant and by none while a session holds it). Correspondence: a deterministic PKCE matrix (PKCE off / S256 only / plain only / both with either default / required, x challenge forms: method named S256 or plain, method left out with the challenge made for S256 or verbatim, no challenge, x verifiers: pre-image, the challenge string itself, wrong, too short, absent; direct and through a pushed request) and generated histories (authorize/callback/redeem by right and wrong client, wrong/absent redirect_uri and verifier, ticks across the code lifetime, replays, later use of the tokens) are executed on the real provider under copying and aliasing storage and compared operation by operation with the model; the monitor (once_from = the predicate of code_at_most_once, client binding, code lifetime, tokens dead after replay; and, following each code back to the parameters of the request that obtained it - direct, pushed+outer, or through callbacks -, redirect_uri binding and pkce_matches = the predicate of code_pkce_effective_method) runs on the implementation traces.', 'note': 'Theorems are about the hand-written model (coq/Model); the model is tied to the Go code by the correspondence runs only as far as the generators reach (counts in the evidence). Crypto, parsers and the clock are modelled (DESIGN.md section 8).', 'technique': "Coq proof (rely/guarantee index discipline + ghost-state invariant by induction over operation histories; per-request decision rules by symbolic execution of the handler program) tied to the code by differential correspondence; the theorem's executable predicate is also evaluated on the implementation's traces", 'design_ref': 'DESIGN.md section 6, C03'}
+PROP = {'suites': ['c03'],
+ 'clauses': {1: 'a token request succeeded on a code that had already been redeemed',
+             2: 'a code was redeemed by a client other than the one it was issued to',
+             3: 'a code was redeemed with a redirect_uri other than the one of its authorization request',
+             4: 'a code was redeemed after its 60 s lifetime had elapsed',
+             5: 'PKCE is enabled and the authorization request recorded a code_challenge, yet the code was redeemed without a code_verifier that matches it under the effective method (the method '
+                'named in the request, else the server default)',
+             6: 'tokens were issued for a token request whose code this server never handed out (empty or unknown)'},
+ 'title': 'Authorization codes are single-use, client-bound, redirect-bound and short-lived',
+ 'text': 'Theorems over the model: code_at_most_once (over ALL histories of any length, configuration and interleaving, no token request succeeds on a consumed code: ghost-state invariant on top of '
+         'the index-uniqueness/freshness discipline proved for every handler), code_redemption_bound (for every store and request, tokens only if the code indexes a stored session of the '
+         'authenticated client, unexpired, with equal redirect_uri and a passed PKCE check, and the session is deleted), code_client_authenticated, code_pkce, code_pkce_effective_method (for every '
+         'store and request: a code whose session recorded a challenge yields tokens only with a verifier matching it under the EFFECTIVE method - the one the authorization request named, else, for '
+         'a code_challenge sent WITHOUT code_challenge_method, the configured default; with S256 as default the challenge string itself is never an acceptable verifier), code_index_unique, '
+         'replay_kills_issue (in every reachable state a later authenticated presentation is refused and no stored grant carries the code afterwards) and code_carried_by_one_grant (invariant over '
+         'ALL histories: a code is carried by at most one grant and by none while a session holds it). Correspondence: a deterministic PKCE matrix (PKCE off / S256 only / plain only / both with '
+         'either default / required, x challenge forms: method named S256 or plain, method left out with the challenge made for S256 or verbatim, no challenge, x verifiers: pre-image, the challenge '
+         'string itself, wrong, too short, absent; direct and through a pushed request) and generated histories (authorize/callback/redeem by right and wrong client, wrong/absent redirect_uri and '
+         'verifier, ticks across the code lifetime, replays, later use of the tokens) are executed on the real provider under copying and aliasing storage and compared operation by operation with '
+         'the model; the monitor (once_from = the predicate of code_at_most_once, client binding, code lifetime, tokens dead after replay; and, following each code back to the parameters of the '
+         'request that obtained it - direct, pushed+outer, or through callbacks -, redirect_uri binding and pkce_matches = the predicate of code_pkce_effective_method) runs on the implementation '
+         'traces. Deterministic scenarios scenarioRedirectMatrix (every registered redirect URI of a client with three, each with its one-detail near misses - trailing slash added / removed, case, '
+         'port, scheme, userinfo, percent-encoding, query, fragment, path suffix -; every code redeemed naming each OTHER registered URI, a near miss, nothing, then the right one) and '
+         'scenarioEmptyCode (token requests with an empty / unknown code while an interaction in progress, a pushed request, a CIBA request and a client_credentials grant are stored).',
+ 'note': 'Theorems are about the hand-written model (coq/Model); the model is tied to the Go code by the correspondence runs only as far as the generators reach (counts in the evidence). Crypto, '
+         'parsers and the clock are modelled (DESIGN.md section 8).',
+ 'technique': 'Coq proof (rely/guarantee index discipline + ghost-state invariant by induction over operation histories; per-request decision rules by symbolic execution of the handler program) tied '
+              "to the code by differential correspondence; the theorem's executable predicate is also evaluated on the implementation's traces",
+ 'design_ref': 'DESIGN.md section 6, C03'}
